@@ -23,7 +23,16 @@ import MdkVerif.Model.Store
       replace_group_relays → save_processed_welcome → save_welcome
   (as of /repo 4010ddc + 0dcc511; `accept` / `decline` refuse a welcome that is already Accepted).
   Also modelled (group traffic, only as far as the invitation property needs it): processing a commit of
-  the group (`applyCommit`) and receiving an application message (`probe`).
+  the group (`deliverCommit`, incl. commits that ROTATE the nostr group id and the store's refusal of a rotation
+  onto an id another record holds) and receiving an application message (`probe`).
+
+  The NOSTR GROUP ID (`nid`; the routing key of kind-445 events) is a field of the group record, of the
+  invitation and of the stored welcome.  `Store.saveGroup` carries the uniqueness rule both backends implement
+  (memory: explicit check against its by-id index; SQLite: UNIQUE index + `ON CONFLICT(mls_group_id)`; tied to the
+  source by `Generated.sqlSaveGroupConflictTarget`, `sqlNostrGroupIdUnique`, `memSaveGroupRefusesForeignNostrId`):
+  an invitation whose id is held by ANOTHER record of the recipient fails at `save_group(Pending)`, the FIRST write
+  of `process_welcome` — nothing has been written then (no processed-welcome record, no welcome, no MLS group:
+  `preview_welcome` only stages).
 -/
 namespace MdkVerif.Welcome
 open MdkVerif MdkVerif.Store
@@ -218,7 +227,8 @@ def isActive (c : Client) (gid : Nat) : Bool :=
 /-- a commit of group `gid` as its members see it -/
 structure Commit where
   gid : Nat
-  nid : Nat                 -- the nostr group id the wrapper event is routed by (`h` tag)
+  nid : Nat                 -- the nostr group id the wrapper event is routed by (`h` tag): the id in force BEFORE the commit
+  toNid : Nat               -- the nostr group id of the group data after the commit (≠ `nid`: the commit rotates the id)
   fromTok : Nat
   toTok : Nat
   toEpoch : Nat
@@ -227,22 +237,41 @@ structure Commit where
   removesMe : Bool          -- the receiving client is removed by this commit
   deriving DecidableEq, Repr, Inhabited
 
-/-- `process_message` of a commit by a member in the commit's parent state (`none`: not applicable — the
-    record is missing or the MLS state is not the parent state; the outcome is then not C16's subject) -/
-def applyCommit (c : Client) (k : Commit) : Option Client :=
+/-- outcome of `process_message` on a commit, as far as the invitation property needs it -/
+inductive DRes where
+  | applied                 -- MessageProcessingResult::Commit
+  | syncFailed              -- merged into the MLS state, then `sync_group_metadata_from_mls` was refused by the store
+  | notApplied              -- not routed to the group / not decryptable in the client's state: no effect on any group
+  deriving DecidableEq, Repr
+
+/-- `process_message` of a commit.  The wrapper is routed by its `h` tag (`find_group_by_nostr_group_id`; no two
+    records share an id, theorem `nid_unique_inv`, so "the record of `k.gid` carries the tag" is the same test) and
+    decrypts only in the commit's parent state.  `process_commit` then MERGES the staged commit and only afterwards
+    calls `sync_group_metadata_from_mls`, whose `save_group` writes epoch, name and NOSTR GROUP ID of the new group
+    data: if another record of this client holds that id the store refuses, the call fails after the merge
+    (Unprocessable; the MLS group is one epoch ahead of its record — known mechanism store-limit-sync-failure). -/
+def deliverCommit (c : Client) (k : Commit) : Client × DRes :=
   match findGroup c.store k.gid, alookup k.gid c.mls with
   | some g, some st =>
-    if g.nid ≠ k.nid then none                       -- not found by its `h` tag
-    else if st.tok ≠ k.fromTok then none
+    if g.nid ≠ k.nid then (c, .notApplied)           -- not found by its `h` tag
+    else if st.tok ≠ k.fromTok then (c, .notApplied)
     else if k.removesMe then
+      let mls := ainsert k.gid { st with epoch := k.toEpoch, members := k.members } c.mls
       match saveGroup c.store { g with state := 1 } with
-      | none => none
-      | some s1 => some { store := s1, mls := ainsert k.gid { st with epoch := k.toEpoch, members := k.members } c.mls }
+      | none => ({ c with mls := mls }, .syncFailed)
+      | some s1 => ({ store := s1, mls := mls }, .applied)
     else
-      match saveGroup c.store { g with epoch := k.toEpoch, nameLen := k.nameLen } with
-      | none => none
-      | some s1 => some { store := s1, mls := ainsert k.gid { tok := k.toTok, epoch := k.toEpoch, members := k.members } c.mls }
-  | _, _ => none
+      let mls := ainsert k.gid { tok := k.toTok, epoch := k.toEpoch, members := k.members } c.mls
+      match saveGroup c.store { g with epoch := k.toEpoch, nameLen := k.nameLen, nid := k.toNid } with
+      | none => ({ c with mls := mls }, .syncFailed)
+      | some s1 => ({ store := s1, mls := mls }, .applied)
+  | _, _ => (c, .notApplied)
+
+/-- the commit applied in full (`none`: it did not, whatever the reason) -/
+def applyCommit (c : Client) (k : Commit) : Option Client :=
+  match deliverCommit c k with
+  | (c', .applied) => some c'
+  | _ => none
 
 /-- can the client decrypt a fresh application message sent from state `senderTok` of group `gid`, whose
     wrapper is routed by nostr group id `nid`?  (the record is looked up by the `h` tag; its `state` is not
